@@ -213,6 +213,10 @@ TypeOfE(e) ==
                        ELSE IF IsArith(a.t) /\ IsArith(b.t) THEN TB(ArithT(a, b), 0)
                        ELSE IF IsPtr(a.t) /\ IsPtr(b.t) THEN TB(IntT("long"), 0)
                        ELSE TB(a.t, 0))
+    [] e.k \in {"incdec", "asg"} -> (TypeOfE(e.l))        \* the type of the (unqualified) left operand, a bit-field keeps its width
+    [] e.k = "sc" -> (TB(TInt, 0))
+    [] e.k = "scond" -> (LET a == TypeOfE(e.a)  b == TypeOfE(e.b) IN
+                         IF IsArith(a.t) /\ IsArith(b.t) THEN TB(ArithT(a, b), 0) ELSE TB(a.t, 0))
     [] OTHER -> (TB(TInt, 0))
 TypeOfLV(e) ==
   CASE e.k = "var" -> (env[e.n].t)
@@ -443,7 +447,7 @@ ApplyAsg(op, lv, r, m) ==       \* lv op= r on memory m; returns [ok, t, v, mem]
                      mem |-> [m EXCEPT ![lv.obj].val = SetPath(@, lv.path, 1, sv)]]
 
 OneOf(t) == IF IsInt(t) THEN RV(TInt, One) ELSE RV(TInt, One)
-SideEval(e) ==     \* -> [ok, t, v, bw, mem]
+SideEval0(e) ==     \* -> [ok, t, v, bw, mem]
   CASE e.k = "incdec" -> (      \* ++x, --x, x++, x--
          LET lv == LVal(e.l) IN
          IF ~lv.ok THEN lv
@@ -454,19 +458,45 @@ SideEval(e) ==     \* -> [ok, t, v, bw, mem]
     [] e.k = "asg" -> ( ApplyAsg(e.op, LVal(e.l), Eval(e.r), mem))
     [] OTHER -> ( LET r == Eval(e) IN IF ~r.ok THEN r ELSE [ok |-> TRUE, t |-> r.t, v |-> r.v, bw |-> r.bw, mem |-> mem])
 
+(* side effects below a sequence point (6.5.13p4, 6.5.14p4, 6.5.15p4): the right operand of && / || and the arms of ?:  *)
+(* are evaluated (with their side effects) only when selected, after the value computation of the first operand         *)
+WithMem(r, m) == [ok |-> TRUE, t |-> r.t, v |-> r.v, bw |-> r.bw, mem |-> m]
+SideEval(e) ==
+  CASE e.k = "sc" -> (      \* a && <side-effect rvalue>, a || <side-effect rvalue>
+         LET a == Eval(e.a) IN
+         IF ~a.ok THEN a
+         ELSE IF (e.op = "&&" /\ ~Truth(a)) \/ (e.op = "||" /\ Truth(a)) THEN WithMem(RV(TInt, BoolW(Truth(a))), mem)
+         ELSE LET b == SideEval0(e.b) IN IF ~b.ok THEN b ELSE WithMem(RV(TInt, BoolW(Truth(b))), b.mem))
+    [] e.k = "scond" -> (   \* c ? <side-effect rvalue> : <side-effect rvalue>; the result has the common type of both arms
+         LET c == Eval(e.c) IN
+         IF ~c.ok THEN c
+         ELSE LET x == SideEval0(IF Truth(c) THEN e.a ELSE e.b) IN
+              IF ~x.ok THEN x
+              ELSE IF IsArith(x.t) THEN LET cv == ConvTo(TypeOfE(e).t, x) IN IF ~cv.ok THEN cv ELSE WithMem(cv, x.mem)
+              ELSE x)
+    [] OTHER -> (SideEval0(e))
+
 (* ---- one action per statement kind; the continuation stack holds items [k, ...] ---- *)
 Item(k) == [k |-> k]
 IsStmt(kind) == CRunning /\ Top.k = "s" /\ Top.s.k = kind
 S == Top.s
 
+SComma ==       \* (a, b) with side effects in a: a is evaluated as a void expression, then a sequence point, then b (6.5.17p2)
+  /\ CRunning /\ Top.k = "s" /\ Top.s.k \in {"expr", "asg"}
+  /\ LET x == IF S.k = "expr" THEN S.e ELSE S.r IN
+       /\ x.k = "scomma"
+       /\ ck' = Push(Push(Pop, [k |-> "s", s |-> IF S.k = "expr" THEN [k |-> "expr", e |-> x.b] ELSE [k |-> "asg", op |-> S.op, l |-> S.l, r |-> x.b]]),
+                     [k |-> "s", s |-> [k |-> "expr", e |-> x.a]])
+  /\ CTick /\ UNCHANGED <<cpid, genv, env, mem, cout, cstatus, cret, depth>>
+
 SExpr ==        \* expression statement (incl. assignment with a side-effect rvalue, ++/--)
-  /\ IsStmt("expr")
+  /\ IsStmt("expr") /\ S.e.k # "scomma"
   /\ LET r == SideEval(S.e) IN
        IF ~r.ok THEN Fail(r.why)
        ELSE mem' = r.mem /\ ck' = Pop /\ CTick /\ UNCHANGED <<cpid, genv, env, cout, cstatus, cret, depth>>
 
 SAsg ==         \* l op= <side-effect rvalue>
-  /\ IsStmt("asg")
+  /\ IsStmt("asg") /\ S.r.k # "scomma"
   /\ LET r == SideEval(S.r) IN
        IF ~r.ok THEN Fail(r.why)
        ELSE LET lv == LVal(S.l)
@@ -731,7 +761,7 @@ SMain ==        \* after the globals: enter main's body with the global environm
   /\ genv' = env
   /\ CTick /\ UNCHANGED <<cpid, env, mem, cout, cstatus, cret, depth>>
 
-CNext == SExpr \/ SAsg \/ SObs \/ SDecl \/ SStatic \/ SVla \/ SVTypedef \/ SVlaT \/ SAlloca \/ SBlock \/ SSeq \/ SIf \/ SLoop \/ SLoopTest \/ SNop \/ SCaseLabel \/ SBreak \/ SContinue
+CNext == SComma \/ SExpr \/ SAsg \/ SObs \/ SDecl \/ SStatic \/ SVla \/ SVTypedef \/ SVlaT \/ SAlloca \/ SBlock \/ SSeq \/ SIf \/ SLoop \/ SLoopTest \/ SNop \/ SCaseLabel \/ SBreak \/ SContinue
          \/ SSwitch \/ SSwitchEnd \/ SGoto \/ SLabel \/ SVaArg \/ SCall \/ SCallEnd \/ SReturn \/ SRetAsg \/ SEnd \/ COutOfFuel \/ SMain
 
 CSpec == CInit /\ [][CNext]_cvars
